@@ -17,9 +17,13 @@ CONSTANTS
   Steps,        \* indentation steps of continuation / block content lines relative to the parent key
   Leads,        \* extra leading blanks on the first block content line (needs an indentation indicator)
   TBs,          \* trailing blank lines after a block scalar
+  Seps,         \* separations after "key:" ("sp", "tab")
+  Props,        \* node properties in front of a value ("", "tag", "anc")
   GInds,        \* indentation of the group list under `groups:`
   RSteps,       \* indentation of the rule list relative to `rules:`
   GI0, RS0,     \* the two indentations in the base document
+  CRLF0,        \* BOOLEAN: the base document is written with CR LF line endings
+  Core,         \* BOOLEAN: restrict scalars to the core space (used for exhaustive PAIRS of fields)
   BaseVar,      \* field order of the base document: 0 usual; 1 `for` / `expr` last; 2 `keep_firing_for` last
   MaxEdits,     \* number of edit actions applied to the base layout
   Acts,         \* enabled edit actions
@@ -33,33 +37,36 @@ vars == <<lay, n>>
 
 \* scalars whose positions are right on the pinned tree (no open C06 finding): no escape spelling an unwritten
 \* character, no comment on a block header, continuation lines indented by two or more, no leading blanks
-CleanSc(r) == /\ r.cls # "escnl" /\ r.lead = 0
+CleanSc(r) == /\ r.cls \notin {"escnl", "esctab"} /\ r.lead = 0 /\ r.prop = ""
               /\ ~(r.style \in BlockStyles /\ r.hc)
               /\ (r.style \notin SingleStyles => r.step >= 2)
 
 \* candidate scalars for a text kind (`key` only selects the words, i.e. their number)
 ScalarSpace(tk, key) ==
-  LET ok(r) == StyleOK(r.style, r.cls) /\ ShapeOK(r.shape, Len(Words(tk, r.cls, key))) /\ (Clean => CleanSc(r))
-      single == { r @@ ScDef : r \in [cls : Classes(tk), style : SingleStyles, shape : {"flat", "sp2"}, hc : BOOLEAN] }
+  LET ok(r) == /\ StyleOK(r.style, r.cls) /\ ShapeOK(r.shape, Len(Words(tk, r.cls, key))) /\ (Clean => CleanSc(r))
+               /\ Core => (r.cls \in {"one", "spaces"} /\ r.shape \in {"flat", "brk1"} /\ ~r.hc /\ ~r.ind)
+      single == { r @@ ScDef : r \in [cls : Classes(tk), style : SingleStyles, shape : {"flat", "sp2"}, hc : BOOLEAN,
+                                      sepk : Seps, prop : Props] }
       multi  == { r @@ ScDef : r \in [cls : Classes(tk), style : MultiStyles, shape : Shapes \ {"sp2"},
-                                      step : Steps, own : BOOLEAN] }
+                                      step : Steps, own : BOOLEAN, sepk : Seps, prop : Props] }
       block  == { r @@ ScDef : r \in [cls : Classes(tk), style : BlockStyles, shape : Shapes,
                                       chomp : {"clip", "strip", "keep"}, ind : BOOLEAN, step : Steps,
-                                      lead : Leads, hc : BOOLEAN, tb : TBs] }
+                                      lead : Leads, hc : BOOLEAN, tb : TBs, sepk : Seps, prop : Props] }
   IN { r \in single : ok(r) }
-     \cup { r \in multi : ok(r) /\ (r.shape = "flat" => r.own) }
+     \cup { r \in multi : ok(r) /\ (r.shape = "flat" => r.own) /\ (r.own => r.sepk = "sp" /\ r.prop = "") }
      \cup { r \in block : ok(r) /\ (r.lead > 0 => r.ind) }
 
 \* scalars usable as mapping keys and inside flow mappings: one line
 KeySpace  == { r @@ ScDef : r \in [style : SingleStyles] }
-FlowOK(r) == r.style \in SingleStyles /\ ~r.hc /\ (r.style = "plain" => r.cls \in {"one", "spaces", "rune", "repeat"})
+FlowOK(r) == r.style \in SingleStyles /\ ~r.hc /\ r.sepk = "sp" /\ r.prop = "" /\ r.cls \notin {"tab", "esctab"} /\ (r.style = "plain" => r.cls \in {"one", "spaces", "rune", "repeat"})
 FlowSpace(tk, key) == { r \in ScalarSpace(tk, key) : FlowOK(r) }
 
 \* Sim: one random scalar drawn dimension by dimension (cheap); may be invalid -> the edit is disabled
 RandScalar(tk) ==
   LET fam == RandomElement({"single", "multi", "block"})
       cls == RandomElement(Classes(tk))
-      r == CASE fam = "single" -> [cls |-> cls, style |-> RandomElement(SingleStyles), shape |-> RandomElement({"flat", "sp2"}),
+      sp == [sepk |-> RandomElement(Seps), prop |-> RandomElement(Props)]
+      r0 == CASE fam = "single" -> [cls |-> cls, style |-> RandomElement(SingleStyles), shape |-> RandomElement({"flat", "sp2"}),
                                    hc |-> RandomElement(BOOLEAN)] @@ ScDef
              [] fam = "multi"  -> [cls |-> cls, style |-> RandomElement(MultiStyles), shape |-> RandomElement(Shapes \ {"sp2"}),
                                    step |-> RandomElement(Steps), own |-> RandomElement(BOOLEAN)] @@ ScDef
@@ -67,11 +74,13 @@ RandScalar(tk) ==
                                    chomp |-> RandomElement({"clip", "strip", "keep"}), ind |-> RandomElement(BOOLEAN),
                                    step |-> RandomElement(Steps), lead |-> RandomElement(Leads), hc |-> RandomElement(BOOLEAN),
                                    tb |-> RandomElement(TBs)] @@ ScDef
+      r == IF r0.own THEN r0 ELSE sp @@ r0
   IN r
 ScValid(tk, r) ==
   /\ StyleOK(r.style, r.cls) /\ ShapeOK(r.shape, Len(Words(tk, r.cls, "k")))
   /\ (r.style \in MultiStyles /\ r.shape = "flat") => r.own
   /\ r.lead > 0 => r.ind
+  /\ r.own => (r.sepk = "sp" /\ r.prop = "")
   /\ Clean => CleanSc(r)
 \* candidates for restyling a scalar of text kind tk (flow = inside a flow mapping)
 Cand(tk, flow) ==
@@ -94,12 +103,14 @@ Rule1 == [RuleDef EXCEPT !.items = CASE BaseVar = 1 -> <<FAlert, FExpr, FLab1, F
                       [] BaseVar = 2 -> <<FAlert, FExpr, FFor, FLab1, FAnn, FKff>>
                       [] OTHER       -> <<FAlert, FExpr, FFor, FLab1, FAnn>>]
 Rule2 == [RuleDef EXCEPT !.items = IF BaseVar = 1 THEN <<FRec, FLab2, FExpr>> ELSE <<FRec, FExpr, FLab2>>]
-Base  == [base |-> "doc", pre |-> <<>>, ghdr |-> <<>>, gi |-> GI0, rstep |-> RS0, rules |-> <<Rule1, Rule2>>, wrap |-> WrNone]
+Base  == [base |-> "doc", crlf |-> CRLF0, pre |-> <<>>, ghdr |-> <<>>, gi |-> GI0, rstep |-> RS0, rules |-> <<Rule1, Rule2>>, wrap |-> WrNone]
 
 Init == lay = (IF ReplayFile = "" THEN Base ELSE JsonDeserialize(ReplayFile)) /\ n = 0
 
-IsField(it) == it.kind \in {"scalar", "map"}
+IsField(it) == it.kind \in {"scalar", "map", "aliasval"}
 SetItem(r, i, it) == [lay EXCEPT !.rules[r].items[i] = it]
+
+HasAliasVal == \E k \in DOMAIN lay.rules : \E i \in DOMAIN lay.rules[k].items : lay.rules[k].items[i].kind = "aliasval"
 
 \* restyle one scalar: a scalar field, or key / value of a map entry
 EditScalar ==
@@ -107,7 +118,9 @@ EditScalar ==
     LET it == lay.rules[r].items[i] IN
     IF it.kind = "scalar"
     THEN /\ it.k \in Focus
-         /\ \E sc \in Cand(TextKind(it.k), FALSE) : sc # it.sc /\ lay' = SetItem(r, i, [it EXCEPT !.sc = sc])
+         /\ \E sc0 \in Cand(TextKind(it.k), FALSE) :
+              LET sc == IF HasAliasVal /\ r = 1 /\ it.k = "expr" THEN [sc0 EXCEPT !.prop = "anc"] ELSE sc0 IN
+              sc # it.sc /\ ~(sc.own /\ sc.prop # "") /\ lay' = SetItem(r, i, [it EXCEPT !.sc = sc])
     ELSE \E j \in Pick(DOMAIN it.kvs) :
            \/ /\ (it.k \o ".v") \in Focus
               /\ \E sc \in Cand(ValKind(it.k), it.flow) :
@@ -134,11 +147,22 @@ EditSwap ==
     /\ IsField(a) /\ IsField(b)
     /\ lay' = [lay EXCEPT !.rules[r].items[i] = b, !.rules[r].items[i + 1] = a]
 
-NoAlias == \A k \in DOMAIN lay.rules : lay.rules[k].alias = 0 /\ ~lay.rules[k].anchor
+NoAlias == ~HasAliasVal /\ \A k \in DOMAIN lay.rules : lay.rules[k].alias = 0 /\ lay.rules[k].merge = 0 /\ ~lay.rules[k].anchor
+ExprAt(k) == CHOOSE i \in DOMAIN lay.rules[k].items : lay.rules[k].items[i].k = "expr"
 GroupKeys == {[k |-> "interval", t |-> "interval: 1m"], [k |-> "limit", t |-> "limit: 10"], [k |-> "limit", t |-> "limit: 1_000"],
-              [k |-> "limit", t |-> "limit: 0x40"], [k |-> "query_offset", t |-> "query_offset: 30s"]}
+              [k |-> "limit", t |-> "limit: 0x40"], [k |-> "query_offset", t |-> "query_offset: 30s"],
+              \* Thanos rule schema (the harness then parses strict mode with parser.ThanosSchema)
+              [k |-> "prs", t |-> "partial_response_strategy: warn"], [k |-> "prs", t |-> "partial_response_strategy: abort"]}
 EditAdd ==
-  \E r \in Pick({k \in DOMAIN lay.rules : lay.rules[k].alias = 0}) :
+  \E r \in Pick({k \in DOMAIN lay.rules : lay.rules[k].alias = 0 /\ lay.rules[k].merge = 0}) :
+    \* anchor rule r and add a rule that merges it (`<<: *r`) and sets only its own name
+    \/ /\ ~lay.rules[r].anchor /\ Len(lay.rules) < 4
+       /\ lay' = [lay EXCEPT !.rules = Append([@ EXCEPT ![r].anchor = TRUE],
+                     [RuleDef EXCEPT !.merge = r, !.items = <<ScalarItem(lay.rules[r].items[NameItem(lay.rules[r])].k, Sc("one"))>>])]
+    \* anchor the expr of the first rule (`expr: &expr ...`) and write the expr of the second as its alias (`expr: *expr`)
+    \/ /\ r = 1 /\ Len(lay.rules) >= 2 /\ ~HasAliasVal /\ ~Clean /\ lay.rules[2].alias = 0 /\ lay.rules[2].merge = 0
+       /\ lay.rules[1].items[ExprAt(1)].kind = "scalar" /\ ~lay.rules[1].items[ExprAt(1)].sc.own
+       /\ lay' = [lay EXCEPT !.rules[1].items[ExprAt(1)].sc.prop = "anc", !.rules[2].items[ExprAt(2)] = AliasItem("expr")]
     \* anchor rule r and repeat it at the end of the list as an alias
     \/ /\ ~lay.rules[r].anchor /\ Len(lay.rules) < 4
        /\ lay' = [lay EXCEPT !.rules = Append([@ EXCEPT ![r].anchor = TRUE], [RuleDef EXCEPT !.alias = r])]
@@ -157,6 +181,9 @@ EditAdd ==
             /\ lay' = SetItem(r, i, [it EXCEPT !.flow = TRUE])
          \/ /\ ~it.flow /\ it.mstep = 2 /\ lay' = SetItem(r, i, [it EXCEPT !.mstep = 4])
     \/ /\ Len(lay.rules) = 2 /\ NoAlias /\ lay' = [lay EXCEPT !.rules = <<@[r]>>]
+
+\* write the file with CR LF line endings (not inside an embedding block: there the embedded text is re-split on LF)
+EditCrlf == ~lay.crlf /\ ~lay.wrap.embed /\ lay' = [lay EXCEPT !.crlf = TRUE]
 
 EditBase ==
   /\ lay.base = "doc"
@@ -177,7 +204,7 @@ EditWrap ==
                     lv \in [seq : BOOLEAN, key : WrapKeys, step : {0, 2, 4}, sibB : BOOLEAN, sibA : BOOLEAN, sl : BOOLEAN] })
           \cup { [lay.wrap EXCEPT !.embed = ~@], [lay.wrap EXCEPT !.docB = ~@], [lay.wrap EXCEPT !.docA = ~@] } :
     /\ Len(w.levels) <= 4
-    /\ WrapOK(lay.base, w)
+    /\ WrapOK(lay.base, w) /\ (w.embed => ~lay.crlf)
     /\ lay' = [lay EXCEPT !.wrap = w]
 
 Next ==
@@ -190,6 +217,7 @@ Next ==
      \/ "add"    \in Acts /\ EditAdd
      \/ "base"   \in Acts /\ EditBase /\ WrapOK("list", lay.wrap)
      \/ "wrap"   \in Acts /\ EditWrap
+     \/ "crlf"   \in Acts /\ EditCrlf
 
 Spec == Init /\ [][Next]_vars
 
@@ -198,11 +226,11 @@ Spec == Init /\ [][Next]_vars
 (* (operators take the rendering R as an argument: TLC evaluates it once)  *)
 
 \* every expected region lies inside the file
-InFile(R) ==
+InFile(R, cr) ==
   \A i \in DOMAIN R.rules : \A k \in DOMAIN R.rules[i].nodes : \A j \in DOMAIN R.rules[i].nodes[k].allow :
     LET a == R.rules[i].nodes[k].allow[j] IN
     /\ 1 <= a.l /\ a.l <= Len(R.lines)
-    /\ 1 <= a.lo /\ a.lo <= a.hi /\ a.hi <= BL(R.lines[a.l]) + 1
+    /\ 1 <= a.lo /\ a.lo <= a.hi /\ a.hi <= BL(R.lines[a.l]) + 1 + cr
 
 \* the exact cells lie inside the expected span, line by line, in order
 PosInSpan(R) ==
@@ -236,7 +264,7 @@ Displaced(R, embed) ==
   /\ \A i \in DOMAIN R.rules : R.rules[i].first = R.baseRules[i].first + R.dLine
 
 Checked(R) ==
-  /\ InFile(R) /\ PosInSpan(R) /\ Disjoint(R) /\ LinesOK(R) /\ Displaced(R, lay.wrap.embed)
+  /\ InFile(R, IF lay.crlf THEN 1 ELSE 0) /\ PosInSpan(R) /\ Disjoint(R) /\ LinesOK(R) /\ Displaced(R, lay.wrap.embed)
   /\ PrintT(<<"CASE", ToJson([lay |-> lay, lines |-> LineT(R.lines), base |-> LineT(R.baseLines)])>>)
 
 \* MC + GEN in one pass: consistency of the arithmetic, then one CASE line per state
